@@ -10,7 +10,7 @@ import (
 	rt "github.com/zeromicro/go-zero/internal/verifrt"
 )
 
-//verif:entry native tier=quick,thorough cover=perroute,global,widened
+//verif:entry tier=quick,thorough cover=perroute,global,widened
 //verif:doc engine.checkedTimeout after addRoutes: global timeout (ms) and two route groups' timeouts symbolic in [0, 2^30]; a route with its own timeout gets exactly it, any other route gets exactly the configured global timeout, however large other routes' timeouts are.
 func Verif_C04_RouteTimeout() {
 	globalMs := rt.Int("global_ms", 0, 1<<30)
